@@ -118,17 +118,17 @@ Proof. exact ok_happly. Qed.
 (* ---- composition: the interleaving semantics of thread programs over the protocol machine (Compose.v).  One event of a
    well-typed thread keeps the configuration well typed (machine invariant, ghost = machine-local state, continuation
    typed); so does starting the next operation, spawning and joining. ---- *)
-Theorem C04_typed_step : forall b0 kof cf cf', WT b0 kof cf -> cstep b0 cf cf' -> WT b0 kof cf'.
+Theorem C04_typed_step : forall b0 kof bof cf cf', WT b0 kof bof cf -> cstep b0 cf cf' -> WT b0 kof bof cf'.
 Proof. exact typed_step. Qed.
 (* hence from a well-typed configuration no interleaving reaches a configuration in which any thread could take a step
    that is a data race, a use after free or a double free *)
-Theorem C04_typed_safe : forall b0 kof cf cf' t a e,
-  WT b0 kof cf -> csteps b0 cf cf' -> Mach.step (ms cf') t a <> Mach.Err e.
+Theorem C04_typed_safe : forall b0 kof bof cf cf' t a e,
+  WT b0 kof bof cf -> csteps b0 cf cf' -> Mach.step (ms cf') t a <> Mach.Err e.
 Proof. exact typed_safe. Qed.
 (* and every started thread whose continuation begins with an event can take it: the protocol precondition of the
    corresponding machine action (holds a reference / exclusive / must-free after the fence) holds *)
-Theorem C04_typed_progress : forall b0 kof cf t,
-  WT b0 kof cf -> (t < length (tc cf))%nat -> Mach.started (Mach.getth (ms cf) t) = true -> is_event (cur (gettc b0 cf t)) ->
+Theorem C04_typed_progress : forall b0 kof bof cf t,
+  WT b0 kof bof cf -> (t < length (tc cf))%nat -> Mach.started (Mach.getth (ms cf) t) = true -> is_event (cur (gettc b0 cf t)) ->
   exists s' c' g', estep b0 t (ms cf) (cur (gettc b0 cf t)) (gh (gettc b0 cf t)) s' c' g'.
 Proof. exact typed_progress. Qed.
 
@@ -136,17 +136,17 @@ Proof. exact typed_progress. Qed.
    clones its handle once per child, moves a clone into each spawned thread; every thread then runs its own sequence of
    reads / mutations on its handle and drops it; thread 0 joins.  The initial configuration is well typed, so every
    reachable configuration is well typed and cannot make an erroneous step. ---- *)
-Theorem C04_shared_handles_typed : forall b0 l0 n opsf, WT b0 (fun _ => 1%nat) (cfg0 b0 l0 n opsf).
+Theorem C04_shared_handles_typed : forall b0 l0 n opsf, WT b0 (fun _ => 1%nat) (fun _ => false) (cfg0 b0 l0 n opsf).
 Proof. exact shared_handles_typed. Qed.
 Theorem C04_shared_handles_safe : forall b0 l0 n opsf cf,
   csteps b0 (cfg0 b0 l0 n opsf) cf ->
-  WT b0 (fun _ => 1%nat) cf /\ forall t a e, Mach.step (ms cf) t a <> Mach.Err e.
+  WT b0 (fun _ => 1%nat) (fun _ => false) cf /\ forall t a e, Mach.step (ms cf) t a <> Mach.Err e.
 Proof. exact shared_handles_safe. Qed.
 
 (* the finding F1, as a theorem: reserve as it was before the repair (probe by decrement, read after giving the
    reference up) cannot be typed against the protocol *)
 Theorem C04_legacy_reserve_refuted : forall b l add g (Q : repr * bool -> ghost -> Prop),
-  checked_add l add <> None -> g_refs g b = 1%nat -> g_excl g b = false ->
+  checked_add l add <> None -> g_refs g b = 1%nat -> g_excl g b = false -> g_bor g b = false ->
   ~ okc (legacy_reserve (Heap b l) add) g Q.
 Proof. exact legacy_reserve_not_protocol_safe. Qed.
 
@@ -162,8 +162,8 @@ Proof. split; eexists; vm_compute; split; reflexivity. Qed.
    tracks the reference counts exactly (cons: an operation changes the thread's count of a buffer exactly by the change
    of its handle), so a thread that finishes holds nothing; the machine invariant (J9) says that a live buffer with no
    holders has a thread that must free it. *)
-Theorem C04_all_finished_released : forall b0 kof cf,
-  WT b0 kof cf ->
+Theorem C04_all_finished_released : forall b0 kof bof cf,
+  WT b0 kof bof cf ->
   (forall t, (t < length (tc cf))%nat -> Mach.started (Mach.getth (ms cf) t) = true -> finished (gettc b0 cf t)) ->
   Mach.live (ms cf) = false.
 Proof. exact all_finished_released. Qed.
@@ -172,6 +172,28 @@ Theorem C04_shared_handles_released : forall b0 l0 n opsf cf,
   (forall t, (t < length (tc cf))%nat -> Mach.started (Mach.getth (ms cf) t) = true -> finished (gettc b0 cf t)) ->
   Mach.live (ms cf) = false.
 Proof. exact shared_handles_released. Qed.
+
+(* ---- sharing BY REFERENCE (std::thread::scope), in the program semantics: thread 0 lends &handle to n scoped threads,
+   for every n; each scoped thread runs any sequence of reads through the borrowed handle and clones through it (every
+   clone is then its own handle, on which it runs any sequence of reads and mutations before dropping it); the scope ends
+   when all of them have run to completion; then thread 0 runs any sequence on its handle and drops it.  The typing carries
+   who borrows (g_bor) and whom a thread has lent to (lt, in agreement with the machine's lend fields: wt_loans); while a
+   loan is outstanding the lender only lends again and joins.  The initial configuration is well typed, so every reachable
+   configuration is (C04_typed_step), none can make an erroneous step, every thread's next event is enabled
+   (C04_typed_progress: a borrower's read and clone through the borrowed handle included), and when everybody has finished
+   the buffer has been released. ---- *)
+Theorem C04_scoped_handles_typed : forall b0 l0 n bopsf ops0,
+  WT b0 (fun _ => 0%nat) (fun t => negb (Nat.eqb t 0)) (scfg0 b0 l0 n bopsf ops0).
+Proof. exact scoped_handles_typed. Qed.
+Theorem C04_scoped_handles_safe : forall b0 l0 n bopsf ops0 cf,
+  csteps b0 (scfg0 b0 l0 n bopsf ops0) cf ->
+  WT b0 (fun _ => 0%nat) (fun t => negb (Nat.eqb t 0)) cf /\ forall t a e, Mach.step (ms cf) t a <> Mach.Err e.
+Proof. exact scoped_handles_safe. Qed.
+Theorem C04_scoped_handles_released : forall b0 l0 n bopsf ops0 cf,
+  csteps b0 (scfg0 b0 l0 n bopsf ops0) cf ->
+  (forall t, (t < length (tc cf))%nat -> Mach.started (Mach.getth (ms cf) t) = true -> finished (gettc b0 cf t)) ->
+  Mach.live (ms cf) = false.
+Proof. exact scoped_handles_released. Qed.
 
 (* non-vacuity of the composition: a concrete interleaving (threads alternate event by event; thread 0 pushes and reads,
    thread 1 removes, clones and drops the clone) of the two-thread instance of the programs above runs to completion:
@@ -183,6 +205,19 @@ Definition ex_sched : list choice :=
 Example C04_execution_example :
   let final := run_sched 0%nat (cfg0 0%nat 5%N 1 ex_ops) ex_sched in
   csteps 0%nat (cfg0 0%nat 5%N 1 ex_ops) final
+  /\ Mach.live (ms final) = false
+  /\ forallb (fun x => match cur x, rest x with Ret _, [] => true | _, _ => false end) (tc final) = true.
+Proof. cbv zeta. split; [apply run_sched_sound|]. vm_compute. auto. Qed.
+(* and of the scoped family: the owner lends to two scoped threads; each reads through the borrowed handle, clones
+   through it, edits its clone (copy-on-write) and drops it; the scope ends; the owner pushes and drops: everybody
+   finishes and the buffer has been released *)
+Definition ex_bops (i : nat) : list bop :=
+  match i with 1%nat => [BRead; BClone [HPush [98%N]; HRead]] | _ => [BClone [HRemove 0%N]; BRead] end.
+Definition ex_sched3 : list choice :=
+  map (fun i => {| who := Nat.modulo i 3; probe := 0; fresh_id := Some (S i) |}) (seq 0 600).
+Example C04_scoped_execution_example :
+  let final := run_sched 0%nat (scfg0 0%nat 5%N 2 ex_bops [HPush [97%N]]) ex_sched3 in
+  csteps 0%nat (scfg0 0%nat 5%N 2 ex_bops [HPush [97%N]]) final
   /\ Mach.live (ms final) = false
   /\ forallb (fun x => match cur x, rest x with Ret _, [] => true | _, _ => false end) (tc final) = true.
 Proof. cbv zeta. split; [apply run_sched_sound|]. vm_compute. auto. Qed.
@@ -205,15 +240,15 @@ Proof. intros w0 ops. exact (ThreadView.thread_results_sequential w0 ops C01.C01
    atomic returns to thread t — the head of the modification order for its RMWs, any message a stale acquire load may
    still read — is at least the number of references t holds ... ---- *)
 Theorem C04_rmw_reads_own_plus_rest : forall s t a s',
-  Inv.Inv s -> a = AClone \/ a = ARelease -> Mach.step s t a = Mach.Ok s' -> (Mach.refs (getth s t) <= val (hdm s))%nat.
+  Inv.Inv s -> a = AClone \/ a = ACloneB \/ a = ARelease -> Mach.step s t a = Mach.Ok s' -> (Mach.refs (getth s t) <= val (hdm s))%nat.
 Proof. exact rmw_value_ge_refs. Qed.
 Theorem C04_load_reads_own_plus_rest : forall s t p m s',
   Inv.Inv s -> Mach.step s t (AProbe p) = Mach.Ok s' -> nth_error (msgs s) p = Some m -> (Mach.refs (getth s t) <= val m)%nat.
 Proof. exact probe_value_ge_refs. Qed.
 (* ... and in every configuration a well-typed program reaches, the value handed to a thread's continuation by a load or
    RMW of the shared count is that thread's own references (its ghost count) plus a non-negative rest *)
-Theorem C04_typed_values_own_plus_rest : forall b0 kof cf0 cf t s' c' g',
-  WT b0 kof cf0 -> csteps b0 cf0 cf -> (t < length (tc cf))%nat -> started (getth (ms cf) t) = true ->
+Theorem C04_typed_values_own_plus_rest : forall b0 kof bof cf0 cf t s' c' g',
+  WT b0 kof bof cf0 -> csteps b0 cf0 cf -> (t < length (tc cf))%nat -> started (getth (ms cf) t) = true ->
   estep b0 t (ms cf) (cur (gettc b0 cf t)) (gh (gettc b0 cf t)) s' c' g' ->
   own_plus_rest b0 (gh (gettc b0 cf t)) (cur (gettc b0 cf t)) c'.
 Proof. exact typed_values_ge_own. Qed.
@@ -254,3 +289,7 @@ Print Assumptions C04_rmw_reads_own_plus_rest.
 Print Assumptions C04_load_reads_own_plus_rest.
 Print Assumptions C04_typed_values_own_plus_rest.
 Print Assumptions C04_thread_view_example.
+Print Assumptions C04_scoped_handles_typed.
+Print Assumptions C04_scoped_handles_safe.
+Print Assumptions C04_scoped_handles_released.
+Print Assumptions C04_scoped_execution_example.
